@@ -126,6 +126,31 @@ pub fn run(tape: &[u8], ctx: &mut Ctx) {
 			}
 		}
 	}
+	// the same bytes must reach a writer that accepts only k bytes per call (out-of-order fields are
+	// copied from side buffers: a different code path per order)
+	if let Some(fb) = &first_bytes {
+		let mut t3 = t0.clone();
+		let mut pr = Presenter::new(&mut t3, &env, Mode::Promised);
+		pr.forced = Some(ForcedRecord { target, order: (0..nfields).rev().collect(), omit: vec![], style: 0 });
+		let p2 = pr.present(&case.schema, &value);
+		for k in [1usize, 2, 3, 7] {
+			let mut sink = crate::io::ScheduledSink::new(vec![], k, k % 2 == 0);
+			let mut sc = SerializerConfig::new(&case.crate_schema);
+			evals += 1;
+			match serde_avro_fast::to_datum(&p2, &mut sink, &mut sc) {
+				Ok(_) => {
+					if sink.delivered != *fb {
+						ctx.violation("C13/short-writes-change-the-record", format!("schema {} value {:?} reversed field order: a writer accepting {k} bytes per call received {} instead of {}", case.json, value, hex(&sink.delivered), hex(fb)));
+						break;
+					}
+				}
+				Err(e) => {
+					ctx.violation("C13/permuted-record-rejected", format!("schema {} value {:?} reversed field order into a short-writing sink (k={k}): {e}", case.json, value));
+					break;
+				}
+			}
+		}
+	}
 	// injections at the target record: must be Err (a panic is caught by the driver)
 	for k in 0..6u8 {
 		let mut t2 = t0.clone();
